@@ -8,8 +8,9 @@ repository.  The line-level functions the Gallina model is parameterised by (`li
 instantiated, per case, by finite tables recorded from the REAL functions during that very call
 (fail closed on a missing entry), so the check is independent of Compiler/ParseLine.v.
 
-Model version: BARDIC_C11B_VARIANT=fixed (default; /repo + proposed_fixes/F11a-*.diff) or
-`current` (the unpatched legacy `<<if x` / `<<elif x` behaviour).
+Model version: BARDIC_C11B_VARIANT = fixed (default: /repo + proposed_fixes/F11a-legacy-if-unclosed.diff +
+F11b-block-depth-limit.diff), `a` (F11a only) or `current` (the unpatched code: legacy `<<if x` /
+`<<elif x` headers leave `condition` unassigned, no nesting limit).
 """
 from __future__ import annotations
 
@@ -198,6 +199,7 @@ SITES = [
     ("@for block never closed", "for-unclosed"),
     ("<<if statement missing >>", "if-missing-close"),
     ("<<elif statement missing >>", "elif-missing-close"),
+    ("blocks nested more than", "nesting-too-deep"),
     ("Found '}' without matching", "content:braces"),
     ("Unclosed expression in", "content:braces"),
 ]
@@ -603,6 +605,17 @@ CORPUS = [
     ("py", ["<<py", "  a = 1", "", " b = 2"], 0),
     ("py", ["@py:", "  a = 1", "   b", "@endpy"], 0),
     ("py", ["@py", "@endpy"], 0),
+    ("cond", ["@if a:", "x", "@else", "y", "@endif"], 0),
+    ("cond", ["@if a:", "x", "@elsewhere:", "y", "@endif"], 0),
+    ("cond", ["@if a:", "x", "@else: // c", "y<>", "<<endif>> tail"], 0),
+    ("cond", ["@if a:", "x", "<<else>> tail", "y", "@endif:"], 0),
+    ("cond", ["@if a:", "+ [c] -> T", "+ bad", "* {k} [d {x}] -> U(1) ^t", "text", "@endif"], 0),
+    # nesting at the cap of F11b (100 levels allowed, the 101st rejected)
+    ("cond", ["@if x:"] * 100 + ["t"] + ["@endif"] * 100, 0),
+    ("cond", ["@if x:"] * 101 + ["t"] + ["@endif"] * 101, 0),
+    ("loop", ["@for a in b:"] * 100 + ["t"] + ["@endfor"] * 100, 0),
+    ("loop", ["@for a in b:"] * 101 + ["t"] + ["@endfor"] * 101, 0),
+    ("cond", ["@if x:", "@for a in b:"] * 51 + ["t"] + ["@endfor", "@endif"] * 51, 0),
 ]
 
 
@@ -630,7 +643,8 @@ def run(tier: str, seed: int) -> int:
     install(blocks)
     rng = chk.rng
     variant = os.environ.get("BARDIC_C11B_VARIANT", "fixed")
-    bad_fn, show_fn = ("case_bad_fixed", "case_show_fixed") if variant == "fixed" else ("case_bad_cur", "case_show_cur")
+    suffix = {"fixed": "fixed", "a": "a", "current": "cur"}[variant]
+    bad_fn, show_fn = f"case_bad_{suffix}", f"case_show_{suffix}"
     n_blocks, n_join, n_mis, n_repo, maxdepth = (380, 90, 30, 260, 3) if tier == "quick" else (5000, 900, 200, 4000, 4)
 
     cases = [{"kind": k, "lines": ls, "start": st, "src": "corpus", "broken": True, "feats": ["corpus"], "gen_depth": None}
@@ -695,6 +709,18 @@ def run(tier: str, seed: int) -> int:
                       cls != "value" or size >= 4 or case["kind"] in ("py", "join"))
             if case["src"] != "corpus" and len(case["lines"]) < 14:
                 chk.sample({"kind": case["kind"], "lines": case["lines"], "start": case["start"], "outcome": cls})
+
+    # ---- oracle only: nesting far beyond the interpreter's recursion limit (too large for a Coq term) ----
+    with C.quiet():
+        for op, cl, kind in (("@if x:", "@endif", "cond"), ("@for a in b:", "@endfor", "loop")):
+            deep = {"kind": kind, "lines": [op] * 1500 + ["t"] + [cl] * 1500, "start": 0}
+            _, cls, res = run_impl(blocks, deep)
+            bump(dist["outcome"], f"{kind}:deep-nesting-1500:{cls}")
+            chk.count((kind, "deep", 1500), True)
+            if cls not in ("value", "SyntaxError", "ValueError"):
+                chk.report(f"blocks.py:{cls}:nesting-beyond-recursion-limit",
+                           f"extract_{kind} escaped with {cls} on 1500 nested '{op}' blocks",
+                           {"kind": kind, "lines": f"['{op}'] * 1500 + ['t'] + ['{cl}'] * 1500", "start": 0, "observed": cls})
 
     bad, shown, log = C.run_coq_cases(chk.scratch, HEADER, terms, "ccase", bad_fn, shard=60, show_fn=show_fn, timeout=900)
     disagreements = 0
